@@ -301,7 +301,10 @@ def gen_case(r, impl):
     old = impl.v2version.format_version(v, pat)
     fl = v2gen.gen_flags(r)
     delta = r.choice([0, 0, 1, 1, 7, 31, 366, 3000, -1, -30, -400, r.randrange(-500, 2000)])
-    nd = d + dt.timedelta(days=delta)
+    try:
+        nd = d + dt.timedelta(days=delta)
+    except OverflowError:       # beyond 9999-12-31 / before 0001-01-01
+        nd = d
     if not (1001 <= nd.year <= 9998):
         nd = d
     return pat, info, v, d, old, fl, nd
